@@ -155,6 +155,8 @@ def gen_batch(seed):
         opts += ["--json", "out/j.json"]
     if want_junit:
         opts += ["--junit", "out/j.xml"]
+    if rng.random() < 0.12:
+        opts += ["--quality_report", "out/q.json"]  # written, not compared (running counter by design)
     cfg, stop = gen_config(rng, names)
     if stop is not None and want_junit:
         # configuration error + --junit ends in an unhandled exception on the pinned tree for the
